@@ -119,9 +119,16 @@ CLAIMS.update({
             "§3.6, §3.13, §4 C19"),
 })
 
+CLAIMS.update({
+    "C20": ("computer algebra (substitution, limit, derivative sign) on closed forms extracted from the code",
+            "ONLY two clauses: (B) boundary attainment of the half-space (T(0)=T_top, T(inf)=T_bottom), plate and constant-age plate "
+            "models (T(0)=T_top, T(max depth)=T_bottom, every series term vanishes there) and of the linear models (by their verified "
+            "form); (E) half space: convex combination with weight erfc(u>=0), dT/d(depth) and dT/d(age) of the documented sign. Bounds "
+            "and monotonicity of the 100-term series, the mass-conserving and slab plate models are not decided",
+            "§4 C20, §10.8"),
+})
+
 NOT_APPLICABLE = {
-    "C20": "bounds and monotonicity of transcendental cooling profiles are real-analysis facts about run-time quantities; "
-           "no sound static argument in reach (DESIGN.md §4 C20)",
 }
 
 
